@@ -316,6 +316,25 @@ def gen(ctx):
                     b2 = {"frames": [bad, "DF17a"], "offset": 9, "amps": [a, a], "db": db, "shape": SHAPES[k % 3], "gap": "3L", "nseed": ctx.seed + 4}
                     hs.append([b1, b2])
                     hs.append([b1, b1, b2])
+    # long runs: n frames at one amplitude followed by frames at another (every ordered amplitude pair), in one buffer and
+    # spread over several buffers of one reader - anything that adapts to the recent traffic (a tracked pulse level, an
+    # automatic gain, a running average) needs a run of a certain length before it shows
+    for n_ in (6, 12, 24, 48):
+        for a1 in AMPS:
+            for a2 in AMPS:
+                for nm, nm2 in (("DF17a", "DF11"), ("DF4", "DF20")):
+                    for db in (None, -13):
+                        k += 1
+                        one = {"frames": [nm] * n_ + [nm2, nm, nm2], "offset": 5 + k % 9, "amps": [a1] * n_ + [a2, a2, a2], "db": db,
+                               "shape": SHAPES[k % 3], "gap": "L", "nseed": ctx.seed + 6}
+                        hs.append([one])
+                        if n_ <= 24:
+                            per = n_ // 3
+                            bufs = [{"frames": [nm] * per, "offset": 5 + (k + j) % 9, "amps": [a1] * per, "db": db, "shape": SHAPES[k % 3],
+                                     "gap": "L", "nseed": ctx.seed + 6 + j} for j in range(3)]
+                            last = {"frames": [nm2, nm, nm2, nm], "offset": 7, "amps": [a2, a1, a2, a2], "db": db, "shape": SHAPES[k % 3],
+                                    "gap": "3L", "nseed": ctx.seed + 9}
+                            hs.append(bufs + [last])
     # distorted pulses (fading, interference): one or two bits of a good squitter whose two samples carry every pair of
     # fractions of the pulse amplitude from an alphabet around the reader's own thresholds - whatever the reader makes of
     # such a frame (drops it, repairs it), it must never hand over a DF17 whose checksum is non-zero
